@@ -66,6 +66,10 @@ func (e *Explorer) runOne(prefix []int) *Exec {
 		fmt.Printf("HARNESS-UNSOUND: execution of scenario %s did not finish within 60s (choices %v)\n", e.Sc.Name, prefix)
 		os.Exit(2)
 	}
+	if len(x.Points) < len(prefix) {
+		fmt.Printf("HARNESS-UNSOUND: replay divergence in scenario %s: the execution ended after %d branch points but the prefix has %d (nondeterminism not owned by the harness)\n", e.Sc.Name, len(x.Points), len(prefix))
+		os.Exit(2)
+	}
 	return x
 }
 
